@@ -10,6 +10,7 @@
 #include <sys/stat.h>
 #include <unistd.h>
 #include <malloc.h>
+#include <sys/resource.h>
 #include <fcntl.h>
 #include <poll.h>
 #include <signal.h>
@@ -67,6 +68,25 @@ inline void junkHeap(int junk, size_t stackBytes = 96 * 1024)
 {
   mallopt(M_PERTURB, (~junkByte(junk)) & 0xff);
   junkStack(junk, stackBytes);
+}
+
+// A runaway allocation in the code under test (an append that never ends) must end in bad_alloc inside the one process that
+// runs it, not in 16 workers eating the machine: 4 GiB of address space for every process that executes runs (the parent,
+// which merges the statistics of very large batches, and sanitizer builds, which need far more, are not limited).
+#if defined(__has_feature)
+#if __has_feature(address_sanitizer) || __has_feature(thread_sanitizer) || __has_feature(memory_sanitizer)
+#define SIM_NO_AS_LIMIT 1
+#endif
+#endif
+inline void limitAddressSpace()
+{
+#if !defined(__SANITIZE_ADDRESS__) && !defined(__SANITIZE_THREAD__) && !defined(SIM_NO_AS_LIMIT)
+  struct rlimit rl;
+  if (getrlimit(RLIMIT_AS, &rl) == 0) {
+    const rlim_t want = (rlim_t)4 << 30;
+    if (rl.rlim_cur == RLIM_INFINITY || rl.rlim_cur > want) {rl.rlim_cur = want; setrlimit(RLIMIT_AS, &rl);}
+  }
+#endif
 }
 
 struct Slot;
@@ -205,6 +225,7 @@ public:
     pid_t pid = fork();
     if (pid < 0) {perror("fork"); std::exit(2);}
     if (pid == 0) {
+      limitAddressSpace();
       close(fd[0]);
       gSlot = privateSlot();
       int devnull = open("/dev/null", O_WRONLY);
@@ -309,6 +330,7 @@ public:
     fflush(stdout);
     pid_t pid = fork();
     if (pid == 0) {
+      limitAddressSpace();
       close(fd[0]); dup2(fd[1], 1); dup2(fd[1], 2);
       execl("/proc/self/exe", Prop::id, "--replay", path.c_str(), (char *)nullptr);
       _exit(127);
@@ -383,6 +405,7 @@ public:
         pid_t pid = fork();
         if (pid < 0) {perror("fork"); std::exit(2);}
         if (pid == 0) {
+          limitAddressSpace();
           workerLoop(w, W, startIndex, total, ws[(size_t)w].gen, t0, cap);
           _exit(0);
         }
